@@ -81,6 +81,18 @@ def check(run, driver):
                         v2 = f(X, Y, Z)
                         if not (v2 == v or (math.isnan(v) and math.isnan(v2))):
                             run.prop_fail("equal arguments give different results", case, sig("repeat"), [v, v2])
+                        # the same array objects, refilled in place with jointly permuted rows (hidden caches keyed on object identity)
+                        pmb = rng.permutation(N)
+                        bx, by, bz = X.copy(), Y.copy(), None if Z is None else Z.copy()
+                        v_first = f(bx, by, bz)
+                        bx[:] = X[pmb]; by[:] = Y[pmb]
+                        if bz is not None:
+                            bz[:] = Z[pmb]
+                        v_reused = f(bx, by, bz)
+                        v_fresh = f(X[pmb].copy(), Y[pmb].copy(), None if Z is None else Z[pmb].copy())
+                        if not (v_reused == v_fresh or (math.isnan(v_reused) and math.isnan(v_fresh))):
+                            run.prop_fail("equal arguments give different results when the same array objects are reused after being refilled in place", case, sig("buffer_reuse"),
+                                          {"reused_buffers": v_reused, "fresh_arrays": v_fresh, "first_call": v_first})
                         # joint row permutation
                         for _ in range(2):
                             pm = rng.permutation(N)
